@@ -1,3 +1,4 @@
+import Verif.Model.Lang3.Conformance
 /-
 Core calculus for event emission (property C48).
 
@@ -17,13 +18,17 @@ What is modelled (code in /repo):
 The calculus: top-level events with parameters of types Int / UInt8 / Int64 / Bool / String / Address /
 optionals / arrays of those; resources `R0 … Rn` with value fields, an optional nested resource field
 `inner: @Rj` (j < i), setters, and an optional `ResourceDestroyed` event whose default arguments are
-literals, `self.f` or `self.inner.f`; global functions `fun fk(_ p: Int)` with `emit` conditions in `pre` and `post`;
+literals, `self.f` or `self.inner.f`; resource interfaces `I0 … Im` (a DAG of conformances) with their own
+`ResourceDestroyed` events (defaults: literals or `self.f0`), emitted for every effective conformance of
+the destroyed resource in conformance order (`distinctConformances`) before the resource's own event;
+global functions `fun fk(_ p: Int)` with `emit` conditions in `pre` and `post`;
 `main` creates, updates and destroys resources, emits, calls.  Left out: events declared in contracts /
-imported, `ResourceDestroyed` inherited from interfaces, attachments' destroy events (`base`), resource
+imported, attachments' destroy events (`base`), resource
 arrays/dictionaries, dictionary / path / struct / enum-typed parameters, dictionary-index default arguments.
 Core Lean only.
 -/
 namespace Verif.Model.Lang3.Events
+open Verif.Model.Lang3 (effectiveConformances)
 
 inductive Ty where
   | int (name : String)        -- Int, UInt8, Int64
@@ -128,6 +133,12 @@ structure ResDecl where
   fields : List Param
   inner : Option Nat
   destroyEvent : Option (List DParam)
+  conforms : List Nat := []
+  deriving Repr, Inhabited
+
+structure IfaceDecl where
+  conforms : List Nat
+  destroyEvent : Option (List DParam)
   deriving Repr, Inhabited
 
 inductive Exp where
@@ -169,6 +180,7 @@ structure Program where
   resources : List ResDecl
   funs : List FunDecl
   main : List Stmt
+  ifaces : List IfaceDecl := []
   deriving Repr, Inhabited
 
 inductive Obs where
@@ -270,6 +282,38 @@ def destroyEventOf (p : Program) (r : Res) : Except Err (Option Event) :=
       | .ok vals => .ok (some ⟨resEventId r.ty, (ps.map (·.name)).zip vals⟩)
       | .error e => .error e
 
+def ifaceEventId (i : Nat) : String := "I" ++ toString i ++ ".ResourceDestroyed"
+
+def Program.graph (p : Program) (i : Nat) : List Nat :=
+  match p.ifaces[i]? with | some it => it.conforms | none => []
+
+/-- the `ResourceDestroyed` events inherited from the interfaces `is` (in that order), constructed on `r` -/
+def evalIfaceEvents (p : Program) (r : Res) : List Nat → Except Err (List Event)
+  | [] => .ok []
+  | i :: is =>
+    match p.ifaces[i]? with
+    | none => .error (.internal "iface")
+    | some it =>
+      match it.destroyEvent with
+      | none => evalIfaceEvents p r is
+      | some ps =>
+        match evalDefaults r ps with
+        | .error e => .error e
+        | .ok vals =>
+          match evalIfaceEvents p r is with
+          | .ok rest => .ok (⟨ifaceEventId i, (ps.map (·.name)).zip vals⟩ :: rest)
+          | .error e => .error e
+
+/-- inherited default destruction events: one per effective conformance, in conformance order -/
+def ifaceEventsOf (p : Program) (r : Res) : Except Err (List Event) :=
+  match p.resources[r.ty]? with
+  | none => .error (.internal "resource")
+  | some d => evalIfaceEvents p r (effectiveConformances p.graph (p.ifaces.length + 1) d.conforms)
+
+def emitList : List Event → M Unit
+  | [] => pure ()
+  | e :: es => do trace (.event e); emitList es
+
 def emitOpt : Option Event → M Unit
   | some e => trace (.event e)
   | none => pure ()
@@ -277,13 +321,19 @@ def emitOpt : Option Event → M Unit
 /-- `CompositeValue.Destroy`: construct the event, destroy the nested resource, then emit -/
 def destroyRes (p : Program) : Res → M Unit
   | .leaf ty fields => fun s =>
-    match destroyEventOf p (.leaf ty fields) with
+    match ifaceEventsOf p (.leaf ty fields) with
     | .error e => (.error e, s)
-    | .ok ev => emitOpt ev s
+    | .ok ievs =>
+      match destroyEventOf p (.leaf ty fields) with
+      | .error e => (.error e, s)
+      | .ok ev => (emitList ievs >>= fun _ => emitOpt ev) s
   | .node ty fields inner => fun s =>
-    match destroyEventOf p (.node ty fields inner) with
+    match ifaceEventsOf p (.node ty fields inner) with
     | .error e => (.error e, s)
-    | .ok ev => (destroyRes p inner >>= fun _ => emitOpt ev) s
+    | .ok ievs =>
+      match destroyEventOf p (.node ty fields inner) with
+      | .error e => (.error e, s)
+      | .ok ev => (destroyRes p inner >>= fun _ => emitList ievs >>= fun _ => emitOpt ev) s
 
 /-- `create`: arguments left to right (value fields, then the nested resource), transferred to the
 field types -/
